@@ -133,6 +133,11 @@ func verifActionBatches(m map[string][]string) []map[string][]string {
 // VerifCache returns the router's route cache (nil when caching is off or no route was added).
 func (r *Router) VerifCache() *cachedRoutes { return r.cachedRoutes }
 
+// VerifLockFree reports whether nobody holds the cache's lock (simulator bookkeeping; no synchronisation).
+//
+//go:norace
+func (c *cachedRoutes) VerifLockFree() bool { return c.lock.canLock() }
+
 // VerifKeys returns the cached keys from most to least recently used, and the
 // number of keys in the index map. Read-only; it takes no lock and must only be
 // called while no request is running.
